@@ -68,6 +68,9 @@ type Engine struct {
 	declared      map[string]bool
 	assumptions   []string
 	fieldWriters  map[string]map[string]map[*ssa.Function]bool
+	inferClosures bool                   // Houdini-style closure precondition inference (see closureInfer)
+	autoPre       map[string][]*autoCand // closure -> candidate facts over its immutable captured cells
+	inferredUsed  map[string]bool
 }
 
 type FuncExec struct {
@@ -398,6 +401,7 @@ func (x *Exec) entryState(cut *ssa.BasicBlock) *State {
 			st.assume(v)
 		}
 	}
+	x.assumeInferred(st)
 	x.buildFrame(st)
 	if cut == nil {
 		x.eng.oblige(fx, st, "canary", "entry", "false", "vacuity canary: requires + axioms must be satisfiable", fn.Pos())
